@@ -1,6 +1,7 @@
 // describe(): the canonical "view" of a packet = every public no-argument const getter of
 // every layer, generated from the headers of the current tree (gen_tins.inc).
 #pragma once
+// Light header: declarations only. Definitions (heavy, generated) live in view_impl.cpp, compiled once per flavor.
 #include "verif.h"
 #include <tins/tins.h>
 #include <tins/pktap.h>
@@ -31,110 +32,21 @@ inline std::set<std::string>& unprinted_types() { static std::set<std::string> s
 inline std::map<std::string, u64*>& counters() { static std::map<std::string, u64*> m; return m; }
 inline u64& counter(const char* name) { auto& m = counters(); auto it = m.find(name); if (it == m.end()) { it = m.emplace(name, new u64(0)).first; } return *it->second; }
 
-// ---- prototypes of generated printers (must precede the generic templates) ---------------
-#define VF_STRUCT_PROTO(Q) void put(std::string& s, const Q& x);
-#define VF_CLASS_PROTO(Q, FN) void put(std::string& s, const Q& x);
-#define VF_GEN_PROTOS
-#include "gen_tins.inc"
-#undef VF_GEN_PROTOS
 
-inline void put(std::string& s, const std::string& x) {
-    s += '"';
-    for (unsigned char c : x) { if (c >= 0x20 && c < 0x7f && c != '"' && c != '\\') s += (char)c; else { char b[8]; snprintf(b, sizeof b, "\\x%02x", c); s += b; } }
-    s += '"';
-}
-inline void put(std::string& s, const char* x) { put(s, std::string(x ? x : "<null>")); }
-inline void put(std::string& s, const Tins::IPv4Address& a) { uint32_t v = a; char b[16]; snprintf(b, sizeof b, "ip4:%08x", v); s += b; }
-template <size_t N> void put(std::string& s, const Tins::small_uint<N>& x) { s += std::to_string((unsigned long long)(typename Tins::small_uint<N>::repr_type)x); }
-template <class A, class B> void put(std::string& s, const std::pair<A, B>& p);
-template <class O, class P> void put(std::string& s, const Tins::PDUOption<O, P>& o);
-template <class T> void put(std::string& s, const T& x);
-
-template <class T, class = void> struct is_iterable : std::false_type {};
-template <class T> struct is_iterable<T, decltype(void(std::declval<const T&>().begin()), void(std::declval<const T&>().end()))> : std::true_type {};
-
-template <class A, class B> void put(std::string& s, const std::pair<A, B>& p) { s += '('; put(s, p.first); s += ','; put(s, p.second); s += ')'; }
-template <class O, class P> void put(std::string& s, const Tins::PDUOption<O, P>& o) {
-    s += "opt{"; put(s, o.option()); s += ",len="; s += std::to_string(o.data_size()); s += ",lf="; s += std::to_string(o.length_field());
-    s += ","; s += hex(o.data_ptr(), o.data_size(), 4096); s += "}";
-}
-template <class T> void put(std::string& s, const T& x) {
-    if constexpr (std::is_same<T, bool>::value) { s += x ? "true" : "false"; }
-    else if constexpr (std::is_integral<T>::value) { if constexpr (std::is_signed<T>::value) s += std::to_string((long long)x); else s += std::to_string((unsigned long long)x); }
-    else if constexpr (std::is_floating_point<T>::value) { s += std::to_string(x); }
-    else if constexpr (std::is_enum<T>::value) { s += std::to_string((long long)(typename std::underlying_type<T>::type)x); }
-    else if constexpr (std::is_pointer<T>::value) { s += x ? "<ptr>" : "<null>"; }
-    else if constexpr (is_iterable<T>::value) {
-        s += '['; bool first = true; size_t n = 0;
-        for (auto it = x.begin(); it != x.end(); ++it) { if (!first) s += ','; first = false; put(s, *it); if (++n > 100000) { s += "..."; break; } }
-        s += ']';
-    }
-    else { std::string t = demangle(typeid(T).name()); unprinted_types().insert(t); s += "<unprinted:" + t + ">"; }
-}
-
-// ---- one accessor call with exception typing -------------------------------------------------
-template <class F> inline void get_one(View& v, const char* name, u64& cnt, F&& f) {
-    ++cnt; std::string s;
-    try { f(s); }
-    catch (const Tins::exception_base& e) { s = "<exc:" + demangle(typeid(e).name()) + ">"; }
-    catch (const Tins::value_too_large& e) { s = "<exc:Tins::value_too_large>"; }
-    catch (...) {
-        std::string t = current_exception_type(); s = "<exc:" + t + ">";
-        if (v.strict_exceptions) violation("escaped-exception/" + t + "/accessor:" + name, std::string("accessor ") + name + " threw non-libtins exception " + t);
-    }
-    v.add(name, s);
-}
-
-#define VF_DESCRIBE_BEGIN(FN, Q) inline void FN(const Q& o, View& v) { (void)o; (void)v;
-#define VF_GET(Q, L, N) { static u64& c_ = vf::counter(#L "." #N); vf::get_one(v, #L "." #N, c_, [&](std::string& s_) { vf::put(s_, o.N()); }); }
-#define VF_DESCRIBE_END() }
+// prototypes of the generated per-class describe functions
+#define VF_DESCRIBE_BEGIN(FN, Q) void FN(const Q& o, View& v);
+#define VF_GET(Q, L, N)
+#define VF_DESCRIBE_END()
 #define VF_GEN_DESCRIBE
 #include "gen_tins.inc"
 #undef VF_GEN_DESCRIBE
+#undef VF_DESCRIBE_BEGIN
+#undef VF_GET
+#undef VF_DESCRIBE_END
 inline void describe__none(...) {}
 
-#define VF_MEMBER(N) s += #N "="; put(s, x.N); s += ';';
-#define VF_STRUCT_DEF(Q, BODY) inline void put(std::string& s, const Q& x) { (void)x; s += '{'; BODY s += '}'; }
-#define VF_GEN_STRUCT_DEFS
-#include "gen_tins.inc"
-#undef VF_GEN_STRUCT_DEFS
-#define VF_CLASS_PUT(Q, FN) inline void put(std::string& s, const Q& x) { View v2; v2.strict_exceptions = false; FN(x, v2); s += '{'; for (auto& p : v2.kv) { s += p.first; s += '='; s += p.second; s += ';'; } s += '}'; }
-#define VF_GEN_CLASS_PUT
-#include "gen_tins.inc"
-#undef VF_GEN_CLASS_PUT
-
-// One layer: class name + generated getters + generic PDU facts.
-inline const char* describe_layer(const Tins::PDU& p, View& v) {
-    const char* cls = "?";
-#define VF_DISPATCH(Q, N, CALLS) if (auto q = dynamic_cast<const Q*>(&p)) { (void)q; cls = #N; v.add("class", #N); CALLS goto done; }
-#define VF_GEN_DISPATCH
-#include "gen_tins.inc"
-#undef VF_GEN_DISPATCH
-    v.add("class", "<unknown:" + demangle(typeid(p).name()) + ">");
-done:
-    { static u64& c1 = counter("PDU.size"); static u64& c2 = counter("PDU.pdu_type");
-      get_one(v, "PDU.size", c1, [&](std::string& s) { put(s, p.size()); });
-      get_one(v, "PDU.pdu_type", c2, [&](std::string& s) { put(s, (int)p.pdu_type()); }); }
-    return cls;
-}
-
-// Whole chain, prefixing keys with the layer index.
-inline std::string describe_chain(const Tins::PDU& root, View& v) {
-    std::string chain; int i = 0;
-    for (const Tins::PDU* p = &root; p; p = p->inner_pdu(), ++i) {
-        v.prefix = std::to_string(i) + ":";
-        const char* c = describe_layer(*p, v);
-        if (i) chain += '/'; chain += c;
-        if (i > 20000) break;
-    }
-    v.prefix.clear();
-    return chain;
-}
-
-// accessor call counters -> stats (call once at the end of a worker)
-inline void dump_counters(const char* prefix = "acc:") {
-    for (auto& kv : counters()) if (*kv.second) { cnt(std::string(prefix) + kv.first, *kv.second); *kv.second = 0; }
-    for (auto& t : unprinted_types()) cnt("unprinted:" + t);
-}
+const char* describe_layer(const Tins::PDU& p, View& v);
+std::string describe_chain(const Tins::PDU& root, View& v);
+void dump_counters(const char* prefix = "acc:");
 
 } // namespace vf
